@@ -3,10 +3,11 @@ package c12
 
 import (
 	"fmt"
+	"github.com/twpayne/go-geom/bigxy"
 	"math"
 	"math/big"
-	"strings"
 	"sort"
+	"strings"
 	"testing"
 
 	geom "github.com/twpayne/go-geom"
@@ -425,6 +426,16 @@ func bitsEq(c geom.Coord, p [2]model.F) bool {
 // quadrilateral, each against its own exact answer), then as given once more: an
 // answer depends on which points form a segment, not on which points were seen before.
 func prop(c Case) error {
+	// the exact-arithmetic package's other exported function runs first (whatever it
+	// returns or panics with): it shares nothing with what is measured here
+	_ = run.Safe(func() error {
+		_ = bigxy.Intersection(geom.Coord{0.1, 0.7}, geom.Coord{3.3, -1.9}, geom.Coord{-2.5, 0.3}, geom.Coord{4.7, 1.1})
+		return nil
+	})
+	return propMain(c)
+}
+
+func propMain(c Case) error {
 	if err := propOne(c); err != nil {
 		return err
 	}
